@@ -511,6 +511,17 @@ def locate(fn, loc):
         # ("has_call", callee_suffix, min_count): does the function call `...callee_suffix(...)` at least min_count times?
         hits = [n for n in ast.walk(fn) if isinstance(n, ast.Call) and ast.unparse(n.func).endswith(loc[1])]
         return ast.copy_location(ast.Constant(len(hits) >= loc[2]), fn)
+    if kind == "except_catches":
+        # ("except_catches", name): does some `except` clause of the function name this exception class?
+        hits = []
+        for n in ast.walk(fn):
+            if isinstance(n, ast.Try):
+                for h in n.handlers:
+                    if h.type is not None:
+                        names = [ast.unparse(x) for x in (h.type.elts if isinstance(h.type, ast.Tuple) else [h.type])]
+                        if loc[1] in names:
+                            hits.append(h)
+        return ast.copy_location(ast.Constant(len(hits) >= 1), fn)
     if kind == "has_identity_test":
         # ("has_identity_test",): does the function compare objects with `is` / `is not` (other than against None)?
         hits = [n for n in ast.walk(fn) if isinstance(n, ast.Compare) and any(isinstance(o, (ast.Is, ast.IsNot)) for o in n.ops)
